@@ -197,10 +197,19 @@ func GenNoti(rng *simrt.Rand, u *gen.Universe, target string, tsLo, tsHi int64, 
 
 // GenStreams draws one operation list per target of u.
 func GenStreams(rng *simrt.Rand, u *gen.Universe, prop string, lifecycle, small, share bool, maxOps int) [][]Op {
+	return GenStreamsR(rng, u, prop, lifecycle, false, small, share, maxOps)
+}
+
+// GenStreamsR is GenStreams with an optional sprinkling of Reset calls alone
+// (resetOnly): the reconnection of a target is part of every update history,
+// whatever the collector's clock does, and the statement of C02 speaks of the
+// latest timestamp accepted - which a Reset forgets.
+func GenStreamsR(rng *simrt.Rand, u *gen.Universe, prop string, lifecycle, resetOnly, small, share bool, maxOps int) [][]Op {
 	var streams [][]Op
 	for _, tg := range u.Targets {
 		var ops []Op
 		removed := false
+		sinceReset := 99
 		n := 1 + rng.Intn(maxOps)
 		if prop == "C02" && rng.Chance(0.3) {
 			n = 40 + rng.Intn(20)
@@ -234,6 +243,24 @@ func GenStreams(rng *simrt.Rand, u *gen.Universe, prop string, lifecycle, small,
 					ops = append(ops, Op{K: "connerr"})
 					continue
 				}
+			}
+			if resetOnly && rng.Chance(0.12) {
+				ops = append(ops, Op{K: "reset"})
+				sinceReset = 0
+				continue
+			}
+			if resetOnly && sinceReset < 3 {
+				// a target that comes back with a corrected clock: low timestamps
+				// right after the reset, so that the updates which follow are far
+				// ahead of everything accepted since
+				sinceReset++
+				ops = append(ops, Op{K: "upd", N: GenNoti(rng, u, tg, 90, 99, small, share)})
+				continue
+			}
+			if resetOnly && sinceReset < 6 {
+				sinceReset++
+				ops = append(ops, Op{K: "upd", N: GenNoti(rng, u, tg, 118, 140, small, share)})
+				continue
 			}
 			if prop == "C12" && rng.Chance(0.5) {
 				ops = append(ops, Op{K: "upd", N: gen.HostileNoti(rng, u, tg, 90+int64(rng.Intn(50)))})
@@ -270,7 +297,12 @@ func (H) Generate(rng *simrt.Rand, prop, tier string) (any, simrt.Config) {
 		sc.ClockMode = []string{"frozen", "advancing", "jumpy", "jumpy"}[rng.Intn(4)]
 	}
 	lifecycle := sc.ClockMode == "advancing" && (prop == "C14" || prop == "C15" || prop == "C12" || prop == "C03" && rng.Chance(0.6) || rng.Chance(0.15))
-	sc.Streams = GenStreams(rng, u, prop, lifecycle, small, share, 4+rng.Intn(26))
+	pReset := 0.25
+	if sc.Opts.FutureNs > 0 {
+		pReset = 0.6 // what a Reset must forget only matters to the future-threshold rule
+	}
+	resetOnly := prop == "C02" && !lifecycle && rng.Chance(pReset)
+	sc.Streams = GenStreamsR(rng, u, prop, lifecycle, resetOnly, small, share, 4+rng.Intn(26))
 	// clock task
 	if sc.ClockMode != "frozen" || rng.Chance(0.5) {
 		v := sc.Clock0
@@ -931,7 +963,11 @@ targets:
 			return sb.String()
 		}
 		synced, connected := false, false
+		resetSeen := false
 		for k, r := range w.recs[i] {
+			if r.op.K == "reset" {
+				resetSeen = true
+			}
 			nOps++
 			cBefore := m.C
 			if exists {
@@ -981,6 +1017,9 @@ targets:
 				if exp.Ambiguous {
 					x.Probe("model-gave-up:future-verdict-of-a-multi-update-depends-on-the-clock-reading")
 					continue targets
+				}
+				if len(exp.Classes) == 1 && exp.Classes[0] == "future" && resetSeen {
+					x.Probe("future-verdict-after-a-reset")
 				}
 				x.Oblige(3)
 				okClass := false
